@@ -79,7 +79,7 @@ def worker_main(pid, tier, widx, nworkers, seed, cases, conn):
         @hseed(seed)
         @settings(max_examples=cases, database=None, deadline=None, derandomize=False, report_multiple_bugs=False,
                   suppress_health_check=[HealthCheck.too_slow, HealthCheck.data_too_large, HealthCheck.large_base_example],
-                  phases=[Phase.generate, Phase.shrink])
+                  phases=[Phase.generate] if getattr(P, "NO_SHRINK", False) else [Phase.generate, Phase.shrink])
         @given(st.binary(min_size=lo, max_size=hi))
         def prop(blob):
             d = Draw(blob)
@@ -87,10 +87,12 @@ def worker_main(pid, tier, widx, nworkers, seed, cases, conn):
             if case is None:
                 stats.skipped += 1
                 return
-            res = run_one(P, case, W, stats)
-            if res.violation:
-                fails.append((case, res.violation))
-                raise AssertionError(res.violation[0])
+            subcases = P.expand(case, W, tier) if hasattr(P, "expand") else (case,)
+            for sub in subcases:
+                res = run_one(P, sub, W, stats)
+                if res.violation:
+                    fails.append((sub, res.violation))
+                    raise AssertionError(res.violation[0])
 
         try:
             if cases > 0:
